@@ -15,6 +15,8 @@ def strip(n, casts=True):
             n = n.children[0]      # implicit access through an anonymous struct/union
         elif casts and k in CASTS and n.children:
             n = n.children[0]
+        elif k == "UnaryOperator" and n.d.get("op") == "__extension__" and n.children:
+            n = n.children[0]
         elif k == "CallExpr" and n.callee == "__builtin_expect" and len(n.children) >= 2:
             n = n.children[1]
         else:
